@@ -34,6 +34,9 @@ func normStr(v Value) Value {
 	if !ok {
 		return v
 	}
+	if bs.mat != nil && bs.B == nil {
+		return v // lazily materialised digits are symbolic
+	}
 	buf := make([]byte, len(bs.B))
 	for i, b := range bs.B {
 		c, ok := b.(uint64)
@@ -131,8 +134,8 @@ func (e *Engine) strTerm(v Value) *Term {
 			return v
 		}
 	case *ByteStr:
-		parts := make([]*Term, len(v.B))
-		for i, b := range v.B {
+		parts := make([]*Term, v.Len())
+		for i, b := range v.bytes() {
 			if c, ok := b.(uint64); ok {
 				parts[i] = e.ts.StrC(string([]byte{byte(c)}))
 			} else {
@@ -237,9 +240,9 @@ func (e *Engine) strBinop(op token.Token, x, y Value) Value {
 	}
 	switch op {
 	case token.ADD:
-		out := &ByteStr{B: make([]Value, 0, len(a.B)+len(b.B))}
-		out.B = append(out.B, a.B...)
-		out.B = append(out.B, b.B...)
+		out := &ByteStr{B: make([]Value, 0, a.Len()+b.Len())}
+		out.B = append(out.B, a.bytes()...)
+		out.B = append(out.B, b.bytes()...)
 		return normStr(out)
 	case token.EQL:
 		return e.byteStrEq(a, b)
@@ -258,7 +261,7 @@ func (e *Engine) strBinop(op token.Token, x, y Value) Value {
 }
 
 func (e *Engine) byteStrEq(a, b *ByteStr) Value {
-	if len(a.B) != len(b.B) {
+	if a.Len() != b.Len() {
 		return false
 	}
 	if a == b {
@@ -268,8 +271,9 @@ func (e *Engine) byteStrEq(a, b *ByteStr) Value {
 		return e.simplify(e.ts.Eq(a.Num, b.Num), nil)
 	}
 	var parts []*Term
-	for i := range a.B {
-		c := e.byteEq(a.B[i], b.B[i])
+	ab, bb := a.bytes(), b.bytes()
+	for i := range ab {
+		c := e.byteEq(ab[i], bb[i])
 		if cb, ok := c.(bool); ok {
 			if !cb {
 				return false
@@ -286,21 +290,22 @@ func (e *Engine) byteStrLt(a, b *ByteStr, orEq bool) Value {
 	if a == b {
 		return orEq
 	}
-	if a.Num != nil && b.Num != nil && len(a.B) == len(b.B) && !e.noNumStr {
+	if a.Num != nil && b.Num != nil && a.Len() == b.Len() && !e.noNumStr {
 		if orEq {
 			return e.simplify(e.ts.Le(a.Num, b.Num), nil)
 		}
 		return e.simplify(e.ts.Lt(a.Num, b.Num), nil)
 	}
-	n := len(a.B)
-	if len(b.B) < n {
-		n = len(b.B)
+	n := a.Len()
+	if b.Len() < n {
+		n = b.Len()
 	}
+	ab, bb := a.bytes(), b.bytes()
 	var prefixEq Value = true
 	var res Value = false
 	for i := 0; i < n; i++ {
-		res = e.orV(res, e.andV(prefixEq, e.byteLt(a.B[i], b.B[i])))
-		prefixEq = e.andV(prefixEq, e.byteEq(a.B[i], b.B[i]))
+		res = e.orV(res, e.andV(prefixEq, e.byteLt(ab[i], bb[i])))
+		prefixEq = e.andV(prefixEq, e.byteEq(ab[i], bb[i]))
 		if c, ok := prefixEq.(bool); ok && !c {
 			return res
 		}
@@ -308,9 +313,9 @@ func (e *Engine) byteStrLt(a, b *ByteStr, orEq bool) Value {
 	// common prefix equal: shorter is smaller
 	var tail bool
 	if orEq {
-		tail = len(a.B) <= len(b.B)
+		tail = a.Len() <= b.Len()
 	} else {
-		tail = len(a.B) < len(b.B)
+		tail = a.Len() < b.Len()
 	}
 	if tail {
 		res = e.orV(res, prefixEq)
@@ -328,8 +333,8 @@ func (e *Engine) stringToBytes(x Value) Value {
 		}
 		return out
 	case *ByteStr:
-		out := make([]Value, len(x.B))
-		for i, b := range x.B {
+		out := make([]Value, x.Len())
+		for i, b := range x.bytes() {
 			if t, ok := b.(*Term); ok && t.Sort.K == SInt {
 				out[i] = e.simplify(e.ts.Int2BV(t, 8), nil)
 			} else {
@@ -361,7 +366,7 @@ func (e *Engine) strLen(x Value) Value {
 	case string:
 		return int64(len(x))
 	case *ByteStr:
-		return int64(len(x.B))
+		return int64(x.Len())
 	case *Term:
 		return e.simplify(e.ts.StrLen(x), nil)
 	}
@@ -441,12 +446,14 @@ func (e *Engine) formatDecimal(v Value, width int, pad bool) Value {
 				}
 			}
 			if k <= 19 && k <= width {
-				var out []Value
-				for i := k; i < width; i++ {
-					out = append(out, uint64('0'))
-				}
-				out = append(out, e.digitsOf(n, k, false)...)
-				return &ByteStr{B: out, Num: n}
+				kk, ww, nn := k, width, n
+				return &ByteStr{Num: n, N: width, mat: func() []Value {
+					var out []Value
+					for i := kk; i < ww; i++ {
+						out = append(out, uint64('0'))
+					}
+					return append(out, e.digitsOf(nn, kk, false)...)
+				}}
 			}
 		}
 		for k = 1; k <= 19; k++ {
@@ -457,22 +464,30 @@ func (e *Engine) formatDecimal(v Value, width int, pad bool) Value {
 				break
 			}
 		}
-		ds := e.digitsOf(n, k, true)
-		var out []Value
-		if neg {
-			out = append(out, uint64('-'))
-			width--
-		}
-		if pad {
-			for i := k; i < width; i++ {
-				out = append(out, uint64('0'))
+		kk, ww, nn, ng, pd := k, width, n, neg, pad
+		mat := func() []Value {
+			ds := e.digitsOf(nn, kk, true)
+			var out []Value
+			w := ww
+			if ng {
+				out = append(out, uint64('-'))
+				w--
 			}
+			if pd {
+				for i := kk; i < w; i++ {
+					out = append(out, uint64('0'))
+				}
+			}
+			return append(out, ds...)
 		}
-		out = append(out, ds...)
 		if !neg {
-			return &ByteStr{B: out, Num: n}
+			total := k
+			if pad && width > k {
+				total = width
+			}
+			return &ByteStr{Num: n, N: total, mat: mat}
 		}
-		return normStr(&ByteStr{B: out})
+		return normStr(&ByteStr{B: mat()})
 	}
 	panic(engineErr("formatDecimal of %s", describeValue(v)))
 }
@@ -486,33 +501,38 @@ func (e *Engine) parseDecimal(s Value) (Value, bool) {
 		v, err := strconv.ParseInt(s, 10, 64)
 		return v, err == nil
 	case *ByteStr:
-		if len(s.B) == 0 {
+		if s.Num != nil && !e.noNumStr {
+			// the string is the decimal rendering of Num
+			return e.simplify(s.Num, nil), true
+		}
+		sB := s.bytes()
+		if len(sB) == 0 {
 			return int64(0), false
 		}
-		if len(s.B) > 18 {
+		if len(sB) > 18 {
 			// longer strings would need overflow handling; padded offsets are 20 wide
 			// leading bytes must then be '0'
 		}
 		i := 0
 		neg := false
-		if c, ok := s.B[0].(uint64); ok && (c == '-' || c == '+') {
+		if c, ok := sB[0].(uint64); ok && (c == '-' || c == '+') {
 			neg = c == '-'
 			i = 1
 		}
 		sum := e.ts.Int(0)
-		nd := len(s.B) - i
+		nd := len(sB) - i
 		if nd == 0 {
 			return int64(0), false
 		}
-		for j := i; j < len(s.B); j++ {
-			b := e.byteInt(s.B[j])
+		for j := i; j < len(sB); j++ {
+			b := e.byteInt(sB[j])
 			isDigit := e.simplify(e.ts.And(e.ts.Le(e.ts.Int(48), b), e.ts.Le(b, e.ts.Int(57))), nil)
 			if !e.branch(isDigit) {
 				return int64(0), false
 			}
 			d := e.ts.Sub(b, e.ts.Int(48))
 			d.Lo, d.Hi = big.NewInt(0), big.NewInt(9)
-			sum = e.ts.Add(sum, e.ts.Mul(d, e.ts.IntBig(pow10Big(len(s.B)-1-j))))
+			sum = e.ts.Add(sum, e.ts.Mul(d, e.ts.IntBig(pow10Big(len(sB)-1-j))))
 		}
 		if neg {
 			sum = e.ts.Neg(sum)
